@@ -93,6 +93,9 @@ def run_pure(ctx, templates, nvals, tag="pure"):
                 feats.append("double-star")
             if tm["short"]:
                 feats.append("shorthand")
+        checks.append((f"{t!r}: aip_class_str = reference class", f"Bool.eqb (aip_class_str {T}) {coq.b(incl)}"))
+        if incl:
+            checks.append((f"{t!r}: aip_parse = reference parse", f"match aip_parse {T} with Some t => tmpl_eqb t {G.tmpl_term(tm)} | None => false end"))
         conv = o["convert"]
         if isinstance(conv, dict):
             e = G.err_term(conv["error"])
@@ -226,7 +229,7 @@ def build_api(r, methods):
     resp.field("ok", 1, "string")
     svc = f.service("Router", host="library.example.com")
     for m in methods:
-        svc.rpc(m["name"], req.fqn, resp.fqn, http=tuple(m["http"]), body=m.get("body"),
+        svc.rpc(m["name"], req.fqn, resp.fqn, cs=bool(m.get("cs")), http=tuple(m["http"]), body=m.get("body"),
                 routing=[tuple(p) for p in m["params"]] if m["kind"] == "explicit" else None)
         if m["kind"] == "explicit" and not m["params"]:      # an annotation without parameters is still an annotation
             from google.api import routing_pb2
@@ -444,7 +447,7 @@ def method_term(m):
     H = "{| h_get := %s; h_put := %s; h_post := %s; h_delete := %s; h_patch := %s; h_custom_path := %s |}" % tuple(
         coq.s(verbs[v]) for v in ["get", "put", "post", "delete", "patch", "custom"])
     ex = "None" if m["kind"] != "explicit" else "(Some %s)" % coq.lst(param_term(f, t or "") for f, t in m["params"])
-    return "{| m_explicit := %s; m_http := %s; m_client_streaming := false |}" % (ex, H)
+    return "{| m_explicit := %s; m_http := %s; m_client_streaming := %s |}" % (ex, H, coq.b(bool(m.get("cs"))))
 
 
 def emitted_term(kind, items):
@@ -516,7 +519,9 @@ def run_e2e(ctx, n_apis, nreq, reserved, tag="e2e", fixed=None):
                 ctx.violation(f"sync and asyncio clients build the routing header differently in {m['name']}",
                               dict(case0, method=m["name"], sync=ds, asyncio=da))
             # what the property says about the emitted shape
-            if m["kind"] == "explicit" and ks == "explicit":
+            if m.get("cs"):
+                ctx.case({"e2e": i, "method": m["name"], "client_streaming": True}, nontrivial=True, feature=["e2e:client-streaming(T1 only)"])
+            if m["kind"] == "explicit" and ks == "explicit" and not m.get("cs"):
                 for (field, t), b in zip(m["params"], its):
                     exp_attr = ".".join(c + "_" if c in reserved else c for c in field.split("."))
                     if b[-2] != exp_attr:
@@ -538,6 +543,8 @@ def run_e2e(ctx, n_apis, nreq, reserved, tag="e2e", fixed=None):
         calls, meta = [], []
         for mi, m in enumerate(methods):
             r = env.rng(f"C06-req-{i}", mi)
+            if m.get("cs"):
+                continue      # client streaming: no single request to read; only the emitted block is compared (T1)
             for vals in gen_requests(r, m, nreq):
                 msg = D.new(req_fqn)
                 for p, v in vals.items():
@@ -671,6 +678,9 @@ def run_witnesses(ctx, reserved):
 # ====================================================================== entry points
 def regen(ctx):
     ctx.notes["t0"] = c06_t0.write_gen()
+    ctx.oblige("T0 Gen/RoutingGen.v regenerated from wrappers.py / reserved_names.py with ast (regex-builder constants, field_headers "
+               "regex, verb order, disambiguated expression, RESERVED_NAMES); pinned by C06_pin_* and re-checked by C06_reserved_no_dot",
+               True, f"{len(ctx.notes['t0']['RESERVED_NAMES'])} reserved names", "T0")
 
 
 def corpus_methods():
@@ -684,6 +694,8 @@ def corpus_methods():
                                                           ("table_name", "projects/*/{routing_id=instances/*}/**"), ("name", "{routing_id=regions/*}/**")],
          "http": ("post", "/v1/c:route"), "body": "*"},
         {"name": "RouteE", "kind": "none", "params": [], "http": ("post", "/v1/e:plain"), "body": "*"},
+        {"name": "RouteG", "kind": "implicit", "params": [], "http": ("post", "/v1/{name=**}:up"), "body": "*", "vars": ["name"], "cs": True},
+        {"name": "RouteH", "kind": "explicit", "params": [("name", "{k=**}"), ("parent", None)], "http": ("post", "/v1/h:up"), "body": "*", "cs": True},
         {"name": "RouteF", "kind": "explicit", "params": [("name", "x/{k=**}"), ("parent", "{k=*}"), ("resource", "a/{j=b/*/c}/d/*")],
          "http": ("post", "/v1/f:route"), "body": "*"},
     ]
